@@ -95,6 +95,20 @@ def step (line : String) : String :=
     match parsed with
     | some ss => "key " ++ hexOrDash (joinLenPrefixOpt ss)
     | none => "bad-op"
+  | ["chainok", c] =>
+    match c.toNat? with
+    | some n => if 1 ≤ n && n ≤ Gen.fsm.MaxChainId then "true" else "false"
+    | none => "bad-op"
+  | ["poolkey", kind, c] =>
+    let add : Option Nat := match kind with
+      | "committee" => some 0
+      | "holding" => some Gen.fsm.HoldingPoolAddend
+      | "liquidity" => some Gen.fsm.LiquidityPoolAddend
+      | "escrow" => some Gen.fsm.EscrowPoolAddend
+      | _ => none
+    match add, c.toNat? with
+    | some a, some n => "key " ++ hexOrDash (Gen.fsm.KeyForPool (UInt64.ofNat (n + a)))
+    | _, _ => "bad-op"
   | ["decode", k] =>
     match ofHex k with
     | some bz => match decodeLenPrefixed bz with
